@@ -141,6 +141,9 @@ func VerifH_C17_set() {
 			var tmp string
 			ok, err := orig.Get(vCtx, "other"+is, &tmp)
 			symAssert(err == nil && !ok, "clone-is-independent")
+			// the original is abandoned the documented way (a dirty handle
+			// that is just dropped panics in its finalizer)
+			orig.Cancel()
 		}
 		if symParam("commits", 1) == 1 && symChoice("commit-now", 2) == 1 {
 			// what has been done so far becomes a version of its own
@@ -311,6 +314,7 @@ func VerifH_C17_merge() {
 		return true, nil
 	})
 	symAssert(err == nil, "tracehistory-ok")
+	m.Cancel() // the late writes above are not kept
 	symReach("end")
 }
 
